@@ -101,6 +101,7 @@ def run(ctx):
     from . import c03_view
     c03_view.check(ctx)
     c03_view.check_stop_maintenance(ctx)
+    c03_view.check_view_snapshots(ctx)
     c03_view.check_async_twins(ctx, F)
     c03_view.check_code_forms(ctx)
     from .. import litdomain
@@ -256,6 +257,41 @@ def check_accessors(ctx, F, allf):
     names = env.get('__all__')
     if not isinstance(names, list) or len(names) < 70:
         raise AnalysisError('fst_accessors.__all__ did not evaluate')
+    def factory_built(name):
+        """[(function node, kind, label)] for an accessor bound by `name = factory('name')` where the factory returns
+        `property(getter, setter, deleter)` of its nested functions: each nested function specialised for the literal argument."""
+        import copy
+        for st in m.tree.body:
+            if isinstance(st, ast.Assign) and len(st.targets) == 1 and isinstance(st.targets[0], ast.Name) and st.targets[0].id == name and \
+                    isinstance(st.value, ast.Call) and isinstance(st.value.func, ast.Name) and len(st.value.args) == 1 and \
+                    isinstance(st.value.args[0], ast.Constant) and not st.value.keywords:
+                facs = m.func(st.value.func.id)
+                if len(facs) != 1 or isinstance(facs[0].node, ast.Lambda):
+                    return []
+                fac = facs[0].node
+                ps = [a.arg for a in fac.args.posonlyargs + fac.args.args]
+                rets = [r for r in walk_no_nested(fac) if isinstance(r, ast.Return)]
+                if len(ps) != 1 or len(rets) != 1 or not (isinstance(rets[0].value, ast.Call) and call_name(rets[0].value) == 'property'):
+                    return []
+                inner = {d.name: d for d in fac.body if isinstance(d, ast.FunctionDef)}
+                out = []
+                for kind, a in zip(('getter', 'setter', 'deleter'), rets[0].value.args):
+                    if not (isinstance(a, ast.Name) and a.id in inner):
+                        return []
+                    fn = copy.deepcopy(inner[a.id])
+                    for x in ast.walk(fn):
+                        for fld, val in ast.iter_fields(x):
+                            if isinstance(val, ast.Name) and val.id == ps[0] and isinstance(val.ctx, ast.Load):
+                                setattr(x, fld, ast.copy_location(ast.Constant(value=st.value.args[0].value), val))
+                            elif isinstance(val, list):
+                                for i, v in enumerate(val):
+                                    if isinstance(v, ast.Name) and v.id == ps[0] and isinstance(v.ctx, ast.Load):
+                                        val[i] = ast.copy_location(ast.Constant(value=st.value.args[0].value), v)
+                    out.append((fn, kind, f'{name} (built by {st.value.func.id})'))
+                return out
+        return []
+
+    factory_built_names = {nm: factory_built(nm) for nm in names if not m.func(nm)}
     ns = ctx.repo.fst_namespace()
     by_name: dict[str, set] = {}
     for (c, f), t in allf.items():
@@ -263,18 +299,20 @@ def check_accessors(ctx, F, allf):
     for f in sorted(by_name):
         if f == 'lineno':
             continue   # TypeIgnore.lineno: FST.lineno is the position attribute, no field accessor by design
-        ctx.check('R3.4', f in names and f in ns, 'fst_accessors', '__all__', f'field {f!r}',
+        ctx.check('R3.4', f in names and (f in ns or bool(factory_built_names.get(f))), 'fst_accessors', '__all__', f'field {f!r}',
                   f'AST field {f!r} has no accessor property on FST')
     for name in names:
         fis = m.func(name)
+        variants = [(fi.node, fi.kind, fi.key.split('.', 1)[1]) for fi in fis
+                    if not (fi.pyver and fi.pyver[1] is not None and name in ('type_params', 'default_value', 'is_lazy'))]
+        # (dummy accessors for interpreters whose grammar lacks the field are skipped)
         if not fis:
-            ctx.bad('R3.4', 'fst_accessors', '__all__', name, 'name exported but no property defined')
-            continue
+            variants = factory_built(name)
+            if not variants:
+                ctx.bad('R3.4', 'fst_accessors', '__all__', name, 'name exported but no property defined')
+                continue
         cards = by_name.get(name, set())
-        for fi in fis:
-            if fi.pyver and fi.pyver[1] is not None and name in ('type_params', 'default_value', 'is_lazy'):
-                continue     # dummy accessor for interpreters whose grammar lacks the field
-            fn = fi.node
+        for fn, kind, label in variants:
             # string literals naming a field, and self.a.<attr> reads
             lits = set()
             for n in walk_no_nested(fn):
@@ -288,13 +326,15 @@ def check_accessors(ctx, F, allf):
                             lits.add('<non-literal>')
                     elif cn and cn.startswith('FSTView') and len(n.args) >= 2 and isinstance(n.args[1], ast.Constant):
                         lits.add(n.args[1].value)
+                    elif cn == 'getattr' and len(n.args) >= 2 and norm(n.args[0]) == 'self.a':
+                        lits.add(n.args[1].value if isinstance(n.args[1], ast.Constant) else '<non-literal>')
                 elif isinstance(n, ast.Attribute) and isinstance(n.value, ast.Attribute) and n.value.attr == 'a' and \
                         isinstance(n.value.value, ast.Name) and n.value.value.id == 'self':
                     lits.add(n.attr)
             lits.discard('__class__')
-            ctx.check('R3.4', lits <= {name}, 'fst_accessors', fi.key.split('.', 1)[1], f'{name} {fi.kind}: fields used {sorted(lits)}',
+            ctx.check('R3.4', lits <= {name}, 'fst_accessors', label, f'{name} {kind}: fields used {sorted(lits)}',
                       f'accessor for {name!r} reads or writes field(s) {sorted(lits - {name})}')
-            if fi.kind in ('setter', 'deleter'):
+            if kind in ('setter', 'deleter'):
                 calls = [n for n in walk_no_nested(fn) if isinstance(n, ast.Call) and call_name(n) in ('_put_slice', '_put_one')]
                 forms = {call_name(c) for c in calls}
                 want = set()
@@ -305,7 +345,7 @@ def check_accessors(ctx, F, allf):
                 ok = forms == want
                 for c in calls:
                     a0 = c.args[0] if c.args else None
-                    if fi.kind == 'deleter':
+                    if kind == 'deleter':
                         ok = ok and isinstance(a0, ast.Constant) and a0.value is None
                     else:
                         ok = ok and isinstance(a0, ast.Name) and a0.id == 'code'
@@ -316,7 +356,7 @@ def check_accessors(ctx, F, allf):
                         ok = ok and len(c.args) == 3 and isinstance(c.args[1], ast.Constant) and c.args[1].value is None
                 if len(want) == 2:
                     ok = ok and any(isinstance(n, ast.Call) and call_name(n) == 'isinstance' for n in walk_no_nested(fn))
-                ctx.check('R3.4', ok, 'fst_accessors', fi.key.split('.', 1)[1], f'{name} {fi.kind}: {sorted(forms)}',
+                ctx.check('R3.4', ok, 'fst_accessors', label, f'{name} {kind}: {sorted(forms)}',
                           f'field {name!r} has cardinalities {sorted(cards)} in the grammar, which needs {sorted(want)} with '
                           f'(code|None, 0, "end", field) / (code|None, None, field); found {[norm(c) for c in calls]}')
 
